@@ -308,6 +308,7 @@ def run(cx: Cx):
                          "SpaceWorld.remove_agent: a success path does not detach the leaving agent's PositionComponent",
                          where=cx.where(rem_agent), path=p.lines())
     cx.floor('SpaceWorld.remove_agent success paths', n, 1)
+    _premises(cx)
 
 
 def _position_tested_absent(p, rself, a_id) -> bool:
@@ -431,3 +432,10 @@ def _drop_nonposition_atoms(S):
                 return False
         return True
     return drop_literals(S, pred)
+
+
+def _premises(cx):
+    from .common import include_premises
+    include_premises(cx, ['C04'], 'a rejected placement changes nothing and an accepted one adds exactly this agent: residency is kept by C04\'s rules',
+                     only=lambda o: o.rule in ('R-DISC', 'R-ATOMIC') and (o.function.endswith('.add_agent') or o.function.endswith('.remove_agent')))
+
